@@ -1078,7 +1078,7 @@ KEEP = {
     "C04": lambda s, feats: s["klass"] in ("valwire",),
     "C05": lambda s, feats: s["klass"] in ("value", "no-raise", "mutated", "reuse-diff") and not ({"array", "linalg"} & set(feats)) and "F" not in s.get("t", ""),
     "C06": lambda s, feats: s["klass"] == "trace",
-    "C07": lambda s, feats: s["klass"] in ("dead-raise", "live-diff"),
+    "C07": lambda s, feats: s["klass"] in ("dead-raise", "live-diff") or (s["klass"] == "unsat" and s["mode"] == "g0"),
     "C08": lambda s, feats: s["klass"] == "state",
     "C09": lambda s, feats: s["klass"] in ("value", "no-raise") and "lazy" in feats,
     "C14": lambda s, feats: s["klass"] in ("value", "no-raise"),
